@@ -717,7 +717,8 @@ def c08(tier, seed):
         t2 = session("c08-overwrite", OverwritePsk=True, PskMode="only", PubLens=[32], InitPads=[False], Variants=["tr"],
                      TrafficMode="short")
         r2 = replay("C08", t2, seed, 1, threads=14)
-    res = merge("model_checking", [t, t2], [r, r2], RULE_D1 +
+    res = merge("model_checking", [t, t2, t3], [r, r2, r3], RULE_D1 +
+                 "a PSK that one side simply does not hold (never replaced by a default); "
                  "also: set_psk on an already filled slot at any time (wrong key later replaced by the right one, and the "
                  "reverse), outcome predicted by the model; "
                  "here: the two endpoints are built with exactly one differing context item - the prologue, one PSK, the "
